@@ -158,3 +158,59 @@ fn c01_fixed_errors_n3() {
 fn c01_fixed_errors_n6() {
     c01_fixed_errors_body::<6>();
 }
+
+// ================================================================================================
+// C10: scratch buffers -- the result does not depend on what a previous call left behind
+// ================================================================================================
+
+/// `reset_fixed_lpc_errors` on a DIRTY scratch (each of the five vectors holds 0, 1 or 2 stale
+/// SIMD vectors of arbitrary content and an arbitrary stale length) yields exactly what the
+/// specification says (same post-condition as c01_fixed_errors_n3), i.e. nothing of the previous
+/// block survives.
+//@ unit props=C10,C01 tier=quick kind=bounded timeout=900 funcs="coding::reset_fixed_lpc_errors (FIXED_LPC_ERRORS scratch)" bound="3 new samples after a previous block of 16 or 32 samples of arbitrary content (the clean start is c01_fixed_errors_n3)"
+#[kani::proof]
+#[kani::unwind(18)]
+fn c10_fixed_errors_dirty() {
+    c10_fixed_errors_dirty_body(1);
+    c10_fixed_errors_dirty_body(2);
+}
+fn c10_fixed_errors_dirty_body(stale_vecs: usize) {
+    let s: [i32; 3] = kani::any();
+    let mut i = 0;
+    while i < 3 {
+        kani::assume(spec_fits(s[i] as i64, 25));
+        i += 1;
+    }
+    let mut errors = FixedLpcErrors::default();
+    // previous contents: every vector of every order arbitrary
+    let mut k = 0;
+    while k <= MAX_FIXED_LPC_ORDER {
+        let a: [i32; 16] = kani::any();
+        let b: [i32; 16] = kani::any();
+        if stale_vecs == 1 {
+            errors[k].resize(16, simd::Simd::from_array(a));
+        } else if stale_vecs == 2 {
+            errors[k].resize(16, simd::Simd::from_array(a));
+            errors[k].resize(32, simd::Simd::from_array(b));
+        }
+        k += 1;
+    }
+    reset_fixed_lpc_errors(&mut errors, &s);
+    let mut k = 0;
+    while k <= MAX_FIXED_LPC_ORDER {
+        let e = errors[k].as_ref();
+        assert!(e.len() == 3);
+        let mut t = k;
+        while t < 3 {
+            let mut prev = [0i64; 4];
+            let mut j = 0;
+            while j < k {
+                prev[j] = s[t - 1 - j] as i64;
+                j += 1;
+            }
+            assert!(spec_fixed_predict(k, &prev) + e[t] as i64 == s[t] as i64);
+            t += 1;
+        }
+        k += 1;
+    }
+}
